@@ -423,6 +423,12 @@ def scenario_restart(rng, props, fails, stats):
     clause_C05(p, rec2, res2, kw2, fails, base=(res1.nfev, res1.njev))
     clause_C02(p, rec2, res2, kw2, fails)
     clause_C14_inputs(p, before, kw2, fails)
+    # C18 on a restart (whatever made it stop, also with a reduced memory): at most maxcor pairs, positive curvature
+    sk2, yk2 = np.atleast_2d(res2.hess_inv.sk), np.atleast_2d(res2.hess_inv.yk)
+    if sk2.size and sk2.shape[0] > kw2["maxcor"]:
+        fails.append(("C18", f"restart result: {sk2.shape[0]} pairs > maxcor={kw2['maxcor']} ({res2.message})"))
+    if sk2.size and not np.all(np.einsum("ij,ij->i", sk2, yk2) > 0):
+        fails.append(("C18", "restart result: a pair with s.y <= 0"))
     return describe(p, kw2)
 
 
@@ -1139,7 +1145,7 @@ def describe(p, kw):
 
 SCENARIOS = {
     "basic": (scenario_basic, {"C02", "C03", "C04", "C05", "C18", "C14", "C07", "C16", "C20"}),
-    "restart": (scenario_restart, {"C04", "C05", "C14", "C02"}),
+    "restart": (scenario_restart, {"C04", "C05", "C14", "C02", "C18"}),
     "cbstate": (scenario_callback_checkpoint, {"C07"}),
     "determinism": (scenario_determinism, {"C14"}),
     "scaler": (scenario_scaler, {"C17"}),
